@@ -19,7 +19,8 @@ theorem hist_split (net : Net) (i : Nat) : hist net i = insOf net (i + 1) ++ (hi
   simp only [insOf, Nat.add_sub_cancel]; exact (List.take_append_drop _ _).symm
 
 /-- every link carries an approximation of its ideal content -/
-theorem GInv.approx_link {input : List Val} {net : Net} (h : GInv input net) (i : Nat)
+theorem GInv.approx_link {P : List Val → Prop} {input : List Val} {net : Net} (h : GInv P input net)
+    (hP : ∀ j, P (idealAt (semsOf net) input j).1) (i : Nat)
     (hi : i + 1 < net.nodes.length) :
     Approx (hist net i) (idealAt (semsOf net) input i).1 (idealAt (semsOf net) input i).2 := by
   induction i with
@@ -31,7 +32,7 @@ theorem GInv.approx_link {input : List Val} {net : Net} (h : GInv input net) (i 
     obtain ⟨_, hsp, _⟩ := h.mid (i + 1) nd (by omega) hi hn
     have hF : (semsOf net)[i + 1]? = some (midF nd) := by simp [semsOf, hn]
     simp only [idealAt, hF]
-    exact (ih hi').step (hist_split net i) hsp
+    exact (ih hi').step (hist_split net i) hsp (hP i)
 
 /-- what the sink may have observed, against an ideal output list and a list of candidate errors -/
 def SinkOK' (Y : List Val) (es : List Err) (s : SinkSt) : Prop :=
@@ -41,7 +42,8 @@ def SinkOK' (Y : List Val) (es : List Err) (s : SinkSt) : Prop :=
   (∀ e, s.termErr = some e → e ∈ es)
 
 /-- the sink's record, in every state of every run, against the ideal content of the last link -/
-theorem GInv.sink_ok {input : List Val} {net : Net} (h : GInv input net) (s : SinkSt)
+theorem GInv.sink_ok {P : List Val → Prop} {input : List Val} {net : Net} (h : GInv P input net)
+    (hP : ∀ j, P (idealAt (semsOf net) input j).1) (s : SinkSt)
     (hs : net.sink? = some s) :
     SinkOK' (idealAt (semsOf net) input (net.nodes.length - 2)).1
             (idealAt (semsOf net) input (net.nodes.length - 2)).2 s := by
@@ -52,7 +54,7 @@ theorem GInv.sink_ok {input : List Val} {net : Net} (h : GInv input net) (s : Si
   have hss : s0 = s := by
     simp only [Net.sink?, hlast] at hs; exact Option.some.inj hs
   subst hss
-  have hap := h.approx_link (net.nodes.length - 2) (by omega)
+  have hap := h.approx_link hP (net.nodes.length - 2) (by omega)
   have hsplit := hist_split net (net.nodes.length - 2)
   have hidx : net.nodes.length - 2 + 1 = net.nodes.length - 1 := by omega
   rw [hidx] at hsplit
